@@ -3,176 +3,106 @@
 package checks
 
 import (
-	"bytes"
-	"encoding/json"
 	"fmt"
-	"math/big"
+	"time"
 
-	"github.com/consensys/gnark-crypto/ecc"
-	"github.com/consensys/gnark-crypto/ecc/bn254"
-	"github.com/consensys/gnark/backend/groth16"
-	"worldcoin/gnark-mbu/prover"
 	"worldcoin/gnark-mbu/verifrt/vsched"
+	"worldcoin/gnark-mbu/verifrt/vsync"
 
 	"verif/harness/ev"
 )
 
-func init() { libIsolationHook = libIsolation }
+func init() { pairIsolationHook = pairIsolation }
 
-// libIsolation explores every interleaving (<= 2 preemptions, statement-level points) of two threads
-// that run Proof.MarshalJSON, ComputeInputHashInsertion/Deletion and the parameter JSON round trip of the
-// instrumented prover package on different values; each thread's results must equal the sequential ones.
-func libIsolation(c *ev.Ctx, keyPrefix string, which []int) (execs, states, trans int64, complete bool) {
+// executions longer than this are not enumerated (reported as a cap)
+const pairMaxPoints = 40000
+
+// pairIsolation explores, for every scenario, every interleaving of two threads running F(0) and F(1)
+// through the instrumented repository packages (statement-level scheduling points). The preemption bound
+// is chosen from the length of one execution: 2 for short ones, 1 otherwise. Each thread's result must
+// equal the result of the same call made sequentially.
+func pairIsolation(c *ev.Ctx, keyPrefix string, scs []pairScenario, deadline time.Time) (execs, states, trans int64, complete bool, per map[string]any) {
 	complete = true
-	for _, k := range which {
+	per = map[string]any{}
+	for _, sc := range scs {
 		if c.NViolations() > 0 {
 			break
 		}
-		name, nr := c13LibRun(c, k)
-		e := &vsched.Explorer{Bound: 2, Fine: true, CountOnly: true, MaxSteps: 200000, Workers: 1, Deadline: c.Deadline, NewRun: nr}
-		e.OnFailure = func(choices []int, s *vsched.Sched, f *vsched.Failure) {
-			if f.Kind == "replay-divergence" {
-				c.HarnessError("replay divergence: %s", f.Msg)
+		sc := sc
+		want := []string{sc.F(0), sc.F(1)} // sequential, outside the scheduler
+		newRun := func() (func(*vsched.Sched), func(), func(*vsched.Sched) *vsched.Failure) {
+			got := make([]string, 2)
+			body := func() {
+				// a wait group, so that the collecting thread becomes enabled only when both are done
+				var wg vsync.WaitGroup
+				wg.Add(2)
+				for i := 0; i < 2; i++ {
+					i := i
+					vsched.GoNamed(fmt.Sprintf("worker%d", i), func() { got[i] = sc.F(i); wg.Done() })
+				}
+				wg.Wait()
 			}
-			c.Violation(keyPrefix+name+"|"+f.Kind, f.Kind+": "+f.Msg, map[string]any{"scenario": "two threads call " + name + " on different values", "schedule": choices})
-			e.Stop()
+			check := func(*vsched.Sched) *vsched.Failure {
+				for i := range got {
+					if got[i] != want[i] {
+						return &vsched.Failure{Kind: "invariant", Msg: fmt.Sprintf("%s, thread %d: result differs from the sequential result when another thread runs the same code on another value: %.200s vs %.200s", sc.Name, i, got[i], want[i])}
+					}
+				}
+				return nil
+			}
+			return nil, body, check
 		}
-		e.Explore()
-		c.Logf("%s, 2 threads, bound=2: executions=%d capped=%v", name, e.Execs, e.Capped)
+		mk := func(bound int) *vsched.Explorer {
+			e := &vsched.Explorer{Bound: bound, Fine: true, MaxSteps: 4 * pairMaxPoints, Workers: 1, Deadline: deadline, NewRun: newRun}
+			e.OnFailure = func(choices []int, s *vsched.Sched, f *vsched.Failure) {
+				if f.Kind == "replay-divergence" {
+					c.HarnessError("replay divergence: %s", f.Msg)
+				}
+				c.Violation(keyPrefix+sc.Name+"|"+f.Kind, f.Kind+": "+f.Msg, map[string]any{"scenario": "two threads call " + sc.Name + " on different values", "schedule": choices})
+				e.Stop()
+			}
+			return e
+		}
+		// the executions without preemption first (either thread first), to learn their length (and refuse executions too long to enumerate)
+		e0 := mk(0)
+		e0.MaxSteps = pairMaxPoints
+		tooLong := false
+		of := e0.OnFailure
+		e0.OnFailure = func(choices []int, s *vsched.Sched, f *vsched.Failure) {
+			if f.Kind == "horizon" {
+				tooLong = true
+				e0.Stop()
+				return
+			}
+			of(choices, s, f)
+		}
+		e0.Explore()
+		if tooLong {
+			c.Logf("%s: more than %d scheduling points in one execution, not enumerated", sc.Name, pairMaxPoints)
+			c.Cap(fmt.Sprintf("concurrent callers of %s: more than %d scheduling points per execution, interleavings not enumerated", sc.Name, pairMaxPoints))
+			per[sc.Name] = map[string]any{"points_per_execution": fmt.Sprintf(">%d", pairMaxPoints), "executions": 0, "complete": false}
+			complete = false
+			continue
+		}
+		points := e0.MaxPoints
+		bound := 1
+		if points <= 250 {
+			bound = 2
+		}
+		e := e0
+		if c.NViolations() == 0 {
+			e = mk(bound)
+			e.Explore()
+		}
+		c.Logf("%s, 2 threads, %d points, bound=%d: executions=%d capped=%v", sc.Name, points, bound, e.Execs, e.Capped)
 		execs += e.Execs
 		states += e.States
 		trans += e.Transitions
+		per[sc.Name] = map[string]any{"points_per_execution": points, "preemption_bound": bound, "executions": e.Execs, "complete": !e.Capped}
 		if e.Capped {
 			complete = false
-			c.Cap("concurrent callers of " + name + ": budget reached")
+			c.Cap("concurrent callers of " + sc.Name + ": budget reached")
 		}
 	}
 	return
-}
-
-// c13LibRun: two scheduler threads call Proof.MarshalJSON, ComputeInputHashInsertion and the
-// parameter JSON round trip on different values; each result must equal the sequential one.
-const libHelpers = 6
-
-func c13LibRun(c *ev.Ctx, k int) (string, func() (func(*vsched.Sched), func(), func(*vsched.Sched) *vsched.Failure)) {
-	_, _, g1, g2 := bn254.Generators()
-	mkProof := func(a, b, cc int64) *prover.Proof {
-		var A, C bn254.G1Affine
-		var B bn254.G2Affine
-		A.ScalarMultiplication(&g1, big.NewInt(a))
-		B.ScalarMultiplication(&g2, big.NewInt(b))
-		C.ScalarMultiplication(&g1, big.NewInt(cc))
-		ra, rb, rc := A.RawBytes(), B.RawBytes(), C.RawBytes()
-		raw := append(append(append([]byte{}, ra[:]...), rb[:]...), rc[:]...)
-		gp := groth16.NewProof(ecc.BN254)
-		if _, err := gp.ReadFrom(bytes.NewReader(raw)); err != nil {
-			c.HarnessError("synthetic proof: %v", err)
-		}
-		return &prover.Proof{Proof: gp}
-	}
-	proofs := []*prover.Proof{mkProof(1, 1, 2), mkProof(3, 2, 5)}
-	proofJSON := [][]byte{}
-	for _, p := range proofs {
-		js, err := independentProofJSON(p)
-		if err != nil {
-			c.HarnessError("synthetic proof JSON: %v", err)
-		}
-		proofJSON = append(proofJSON, js)
-	}
-	mkDel := func(i int) *prover.DeletionParameters {
-		return &prover.DeletionParameters{DeletionIndices: []uint32{uint32(i), uint32(i + 2)}, PreRoot: *big.NewInt(int64(3000 + i)), PostRoot: *big.NewInt(int64(4000 + i)), IdComms: []big.Int{*big.NewInt(int64(5 + i)), *big.NewInt(int64(6 + i))}, MerkleProofs: [][]big.Int{{*big.NewInt(int64(i))}, {*big.NewInt(int64(i + 1))}}}
-	}
-	mkParams := func(k int64) *prover.InsertionParameters {
-		return &prover.InsertionParameters{StartIndex: uint32(k), PreRoot: *big.NewInt(1000 + k), PostRoot: *big.NewInt(2000 + k), IdComms: []big.Int{*big.NewInt(7 * k), *big.NewInt(9 * k)}, MerkleProofs: [][]big.Int{{*big.NewInt(k)}, {*big.NewInt(k + 1)}}}
-	}
-	helpers := []struct {
-		name string
-		f    func(i int) string
-	}{
-		{"Proof.MarshalJSON", func(i int) string {
-			js, err := json.Marshal(proofs[i])
-			if err != nil {
-				return "error: " + err.Error()
-			}
-			return string(js)
-		}},
-		{"Proof.UnmarshalJSON", func(i int) string {
-			var back prover.Proof
-			if err := json.Unmarshal(proofJSON[i], &back); err != nil {
-				return "error: " + err.Error()
-			}
-			var buf bytes.Buffer
-			back.Proof.WriteRawTo(&buf)
-			return fmt.Sprintf("%x", buf.Bytes())
-		}},
-		{"ComputeInputHashInsertion", func(i int) string {
-			p := mkParams(int64(i + 1))
-			if err := p.ComputeInputHashInsertion(); err != nil {
-				return "error: " + err.Error()
-			}
-			return p.InputHash.Text(16)
-		}},
-		{"ComputeInputHashDeletion", func(i int) string {
-			d := mkDel(i)
-			if err := d.ComputeInputHashDeletion(); err != nil {
-				return "error: " + err.Error()
-			}
-			return d.InputHash.Text(16)
-		}},
-		{"InsertionParameters JSON round trip", func(i int) string {
-			pj, err := json.Marshal(mkParams(int64(i + 1)))
-			if err != nil {
-				return "marshal error: " + err.Error()
-			}
-			var back prover.InsertionParameters
-			if err := json.Unmarshal(pj, &back); err != nil {
-				return "unmarshal error: " + err.Error()
-			}
-			return string(pj) + fmt.Sprintf("|%+v", back)
-		}},
-		{"DeletionParameters JSON round trip", func(i int) string {
-			dj, err := json.Marshal(mkDel(i))
-			if err != nil {
-				return "marshal error: " + err.Error()
-			}
-			var back prover.DeletionParameters
-			if err := json.Unmarshal(dj, &back); err != nil {
-				return "unmarshal error: " + err.Error()
-			}
-			return string(dj) + fmt.Sprintf("|%+v", back)
-		}},
-	}
-	h := helpers[k]
-	want := []string{h.f(0), h.f(1)} // sequential, outside the scheduler
-	return h.name, func() (func(*vsched.Sched), func(), func(*vsched.Sched) *vsched.Failure) {
-		got := make([]string, 2)
-		body := func() {
-			done := vsched.NewChan[int](2)
-			for i := 0; i < 2; i++ {
-				i := i
-				vsched.GoNamed(fmt.Sprintf("worker%d", i), func() { got[i] = h.f(i); done.Send(i) })
-			}
-			done.Recv()
-			done.Recv()
-		}
-		check := func(*vsched.Sched) *vsched.Failure {
-			for i := range got {
-				if got[i] != want[i] {
-					return &vsched.Failure{Kind: "invariant", Msg: fmt.Sprintf("%s, thread %d: result differs from the sequential result when another thread runs the same helper on another value: %.200s vs %.200s", h.name, i, got[i], want[i])}
-				}
-			}
-			return nil
-		}
-		return nil, body, check
-	}
-}
-
-// independentProofJSON renders a proof document from gnark's struct fields without the repository's encoder.
-func independentProofJSON(p *prover.Proof) ([]byte, error) {
-	co, err := proofCoords(p.Proof)
-	if err != nil {
-		return nil, err
-	}
-	h := func(i int) string { return "0x" + co[i].Text(16) }
-	return json.Marshal(map[string]any{"ar": []string{h(0), h(1)}, "bs": [][]string{{h(2), h(3)}, {h(4), h(5)}}, "krs": []string{h(6), h(7)}})
 }
